@@ -163,6 +163,25 @@ static void prng_group(void)
     }
 }
 
+/* the C++ cipher classes: keying (twice with the same secret key, then with another one, then with a zero-length key) and packets out; the keying calls see secret keys only */
+#include "cpp_session.h"
+static void cpp_group(void)
+{
+    for (int v = 0; v < 3; v++) for (int fam = 0; fam < 4; fam++) for (int alg = 0; alg < 3; alg++) {
+        uint8_t key[20], key2[20], m[40], c[64]; char nm[64]; int kl = fam == 3 ? ref_isap_keylen(alg) : ref_keylen(alg);
+        secrets(v); memcpy(key, K, 20); memcpy(key2, K, 20); key2[kl - 1] ^= 1; memcpy(m, MSG, 40);
+        static const char *fn[] = {"aead", "masked", "siv", "isap"};
+        snprintf(nm, sizeof nm, "cpp-keying:%s:%d", fn[fam], alg); prim(nm, 0, 17, v);
+        SECRET(key, kl); SECRET(key2, kl); SECRET(m, 17);
+        void *h = cpps_new(fam, alg);
+        (void)pub_int(cpps_set_key(h, key, kl)); (void)pub_int(cpps_set_key(h, key, kl)); (void)pub_int(cpps_set_key(h, key2, kl)); (void)pub_int(cpps_set_key(h, key, kl));
+        cpps_set_nonce(h, N, 16); int r = cpps_encrypt(h, c, m, 17, ADB, 5); (void)r; PUBLIC(c, 33);
+        /* no decryption here: the wrapper branches on the accept / reject outcome, which is public, before the harness could declassify it (the C functions of C02 are judged above) */
+        (void)pub_int(cpps_set_key(h, key, 0)); cpps_set_nonce(h, N, 16); (void)cpps_encrypt(h, c, m, 17, ADB, 5);
+        cpps_delete(h);
+    }
+}
+
 int main(int argc, char **argv)
 {
     hx_init();
@@ -170,6 +189,7 @@ int main(int argc, char **argv)
     if (!RUNNING_ON_VALGRIND) { printf("NOTE not running under valgrind: nothing is monitored\n"); }
     if (!strcmp(argv[1], "aead")) aead_group(atoi(argv[2]));
     else if (!strcmp(argv[1], "mac")) mac_group();
+    else if (!strcmp(argv[1], "cpp")) cpp_group();
     else prng_group();
     hx_stat("nontrivial", *hx_statp("evaluations"));
     hx_sample("memcheck taint: group %s %s: secret key/plaintext/entropy marked undefined, public shapes x secret alphabet {zero, ones, dense} x accept / reject at tag byte 0, byte 15, all bytes", argv[1], argc > 2 ? argv[2] : "");
